@@ -119,3 +119,51 @@ def check_wrapper(name, f, calls, timeout=60):
         nparams = len(mir._split_top(m.group(1)))
     return {"name": name, "res": res if res in ("sat", "unsat") else "error", "lens": vals, "dt": time.time() - t0,
             "host_params": nparams, "smt": q}
+
+
+def mapping(f, calls):
+    """-> (number of host parameters, list per parameter of the argument indices its value is computed
+    from), read off the tuple operand of the host call `<FN as Fn<(A, B, ..)>>::call(f, (a, b, ..))`;
+    None if the operand is not a tuple built in this closure (zero-parameter wrappers)."""
+    t = f.blocks[calls[0]].term
+    m = re.search(r"Fn(?:Mut|Once)?<\((.*)\)>>::call", t["callee"])
+    n = len(mir._split_top(m.group(1))) if m and m.group(1).strip() else 0
+    if n == 0:
+        return 0, []
+    tup = t["args"][1].replace("move ", "").strip() if len(t["args"]) > 1 else ""
+    ds = f.defs.get(tup)
+    if not ds or len(ds) != 1 or not (ds[0].startswith("(") and ds[0].endswith(")")):
+        raise ValueError("host-call operand is not a tuple built in the closure: %s" % (ds and ds[0][:80]))
+    fields = mir._split_top(ds[0][1:-1])
+    if len(fields) != n:
+        raise ValueError("host call has %d parameters but the operand tuple has %d fields" % (n, len(fields)))
+    out = []
+    for fl in fields:
+        o = mir.origin(f, fl)
+        out.append(sorted(set(int(x) for x in re.findall(r"\(\*_2\)\[\(?const (\d+)_usize\)?\]", o))))
+    return n, out
+
+
+def check_mapping(name, f, calls, timeout=30):
+    """One query per wrapper: is there a parameter position k whose value is computed from an argument
+    other than args[k] (or from none / several)?  The source table is read from the MIR; z3 decides."""
+    t0 = time.time()
+    n, src = mapping(f, calls)
+    if n == 0:
+        return {"name": name, "res": "unsat", "n": 0, "dt": 0.0}
+    # src(k): the single argument index parameter k is computed from; 255 = none or several
+    tbl = "(_ bv255 8)"
+    for k in range(n - 1, -1, -1):
+        v = src[k][0] if len(src[k]) == 1 else 255
+        tbl = "(ite (= k (_ bv%d 8)) (_ bv%d 8) %s)" % (k, v, tbl)
+    q = "(set-logic QF_BV)\n(declare-const k (_ BitVec 8))\n(assert (bvult k (_ bv%d 8)))\n(assert (distinct %s k))\n(check-sat)\n" % (n, tbl)
+    p = subprocess.run(["z3", "-in", "-T:%d" % timeout], input=q, capture_output=True, text=True)
+    if p.stdout.strip().startswith("sat"):
+        p = subprocess.run(["z3", "-in", "-T:%d" % timeout], input=q + "(get-value (k))\n", capture_output=True, text=True)
+    out = p.stdout.strip().split("\n")
+    res = out[0] if out and out[0] in ("sat", "unsat") and "(error" not in p.stdout else "error"
+    k = None
+    if res == "sat":
+        m = re.search(r"#x([0-9a-f]{2})", p.stdout)
+        k = int(m.group(1), 16) if m else None
+    return {"name": name, "res": res, "n": n, "k": k, "src": src, "dt": time.time() - t0}
